@@ -248,6 +248,46 @@ func (d *dImpl) handle(t string) *listz.DNode[int] {
 	return d.h[h]
 }
 
+// wellFormed: t is a plain protocol line whose handles exist now (what the Lean driver parses).
+func (d *dImpl) wellFormed(t []string) bool {
+	sig, ok := dArity[firstOr(t)]
+	if !ok || len(t) != 1+len(sig) {
+		return false
+	}
+	for i, k := range sig {
+		a := t[1+i]
+		switch k {
+		case 'l':
+			if listIdx(a) < 0 {
+				return false
+			}
+		case 'v':
+			if _, err := strconv.Atoi(a); err != nil {
+				return false
+			}
+		case 'h':
+			if d.handle(a) == nil {
+				return false
+			}
+		}
+	}
+	return true
+}
+
+func firstOr(t []string) string {
+	if len(t) == 0 {
+		return ""
+	}
+	return t[0]
+}
+
+var dArity = map[string]string{
+	"new": "v", "init": "l", "pf": "lv", "pb": "lv", "ib": "lvh", "ia": "lvh",
+	"pfn": "lh", "pbn": "lh", "inb": "lhh", "ina": "lhh", "mtf": "lh", "mtb": "lh",
+	"mb": "lhh", "ma": "lhh", "rm": "lh", "pbl": "ll", "pfl": "ll", "front": "l", "back": "l", "len": "l",
+	"next": "h", "prev": "h",
+}
+
 func (d *dImpl) step(t []string) string {
 	if len(t) == 0 {
 		return "bad-op"
@@ -277,6 +317,59 @@ func (d *dImpl) step(t []string) string {
 			}
 		}
 		return "ok"
+	}
+	if op == "allbody" || op == "walkbody" {
+		if len(t) < 2 || listIdx(t[1]) < 0 {
+			return "bad-op"
+		}
+		acts, brk, ok := parseScript(t[2:])
+		if !ok {
+			return "bad-op"
+		}
+		for _, as := range acts {
+			for _, a := range as {
+				if !d.wellFormed(a) {
+					return "bad-op"
+				}
+			}
+		}
+		l := d.l[listIdx(t[1])]
+		var ys []string
+		n := 0
+		body := func() bool { // false = stop
+			for _, a := range acts[n] {
+				d.step(a)
+			}
+			if brk[n] {
+				return false
+			}
+			n++
+			return true
+		}
+		if op == "allbody" {
+			for v := range l.All() {
+				if n == bigCap {
+					ys = append(ys, "!")
+					break
+				}
+				ys = append(ys, strconv.Itoa(v))
+				if !body() {
+					break
+				}
+			}
+		} else {
+			for e := l.Front(); e != nil; e = e.Next() {
+				if n == bigCap {
+					ys = append(ys, "!")
+					break
+				}
+				ys = append(ys, d.show(e))
+				if !body() {
+					break
+				}
+			}
+		}
+		return "y[" + strings.Join(ys, " ") + "]"
 	}
 	arity := map[string]string{
 		"new": "v", "init": "l", "pf": "lv", "pb": "lv", "ib": "lvh", "ia": "lvh",
@@ -498,39 +591,8 @@ func checkD(c core.Case, out []string) *core.Failure {
 	if out[0] != want {
 		return &core.Failure{Key: "dlist-zero-value", Desc: fmt.Sprintf("fresh lists: implementation %q, container/list %q", out[0], want)}
 	}
-	for i := 1; i < len(c.Lines); i++ {
-		t := core.Toks(c.Lines[i])
-		if len(t) == 0 {
-			return nil
-		}
-		if t[0] == "pushn" || t[0] == "removen" || t[0] == "removebn" {
-			if len(t) != 3 || listIdx(t[1]) < 0 {
-				return nil
-			}
-			k, err := strconv.Atoi(t[2])
-			if err != nil || k < 0 {
-				return nil
-			}
-			l := d.l[listIdx(t[1])]
-			for n := 0; n < k; n++ {
-				switch t[0] {
-				case "pushn":
-					d.reg(l.PushBack(n % 10))
-				case "removen":
-					if e := l.Front(); e != nil {
-						l.Remove(e)
-					}
-				default:
-					if e := l.Back(); e != nil {
-						l.Remove(e)
-					}
-				}
-			}
-			if want := "ok | " + d.dumpAll(); out[i] != want {
-				return &core.Failure{Key: "dlist-" + t[0], Desc: fmt.Sprintf("op %d %q: implementation answered %q, container/list gives %q", i, c.Lines[i], clip(out[i]), clip(want))}
-			}
-			continue
-		}
+	// exec runs one plain protocol line on container/list; ok = false: malformed or unspecified
+	exec := func(t []string) (string, bool) {
 		var ls []*list.List
 		var hs []*list.Element
 		v := 0
@@ -554,16 +616,16 @@ func checkD(c core.Case, out []string) *core.Failure {
 			"rm": {1, 1}, "pbl": {2, 0}, "pfl": {2, 0}, "front": {1, 0}, "back": {1, 0}, "len": {1, 0}, "next": {0, 1}, "prev": {0, 1}}
 		nd, ok := need[t[0]]
 		if !ok || bad || len(ls) != nd[0] {
-			return nil // malformed line: nothing to say
+			return "", false // malformed line: nothing to say
 		}
 		// handles are the trailing nd[1] integers
 		if len(hs) < nd[1] {
-			return nil
+			return "", false
 		}
 		hs = hs[len(hs)-nd[1]:]
 		for _, e := range hs {
 			if e == nil {
-				return nil
+				return "", false
 			}
 		}
 		if t[0] == "pf" || t[0] == "pb" || t[0] == "new" {
@@ -578,7 +640,7 @@ func checkD(c core.Case, out []string) *core.Failure {
 			res = strconv.Itoa(d.reg(&list.Element{Value: v}))
 		case "init":
 			if ls[0].Len() != 0 {
-				return nil // unspecified: orphaned nodes
+				return "", false // unspecified: orphaned nodes
 			}
 			ls[0].Init()
 		case "pf":
@@ -599,7 +661,7 @@ func checkD(c core.Case, out []string) *core.Failure {
 			}
 		case "pfn", "pbn":
 			if d.live(hs[0]) {
-				return nil // undocumented misuse: node still linked
+				return "", false // undocumented misuse: node still linked
 			}
 			if t[0] == "pfn" {
 				d.rebind(hs[0], ls[0].PushFront(hs[0].Value))
@@ -609,7 +671,7 @@ func checkD(c core.Case, out []string) *core.Failure {
 		case "inb", "ina":
 			if d.in(ls[0], hs[1]) {
 				if d.live(hs[0]) {
-					return nil
+					return "", false
 				}
 				if t[0] == "inb" {
 					d.rebind(hs[0], ls[0].InsertBefore(hs[0].Value, hs[1]))
@@ -658,12 +720,124 @@ func checkD(c core.Case, out []string) *core.Failure {
 		case "prev":
 			res = d.show(hs[0].Prev())
 		}
+		return res, true
+	}
+	for i := 1; i < len(c.Lines); i++ {
+		t := core.Toks(c.Lines[i])
+		if len(t) == 0 {
+			return nil
+		}
+		if t[0] == "pushn" || t[0] == "removen" || t[0] == "removebn" {
+			if len(t) != 3 || listIdx(t[1]) < 0 {
+				return nil
+			}
+			k, err := strconv.Atoi(t[2])
+			if err != nil || k < 0 {
+				return nil
+			}
+			l := d.l[listIdx(t[1])]
+			for n := 0; n < k; n++ {
+				switch t[0] {
+				case "pushn":
+					d.reg(l.PushBack(n % 10))
+				case "removen":
+					if e := l.Front(); e != nil {
+						l.Remove(e)
+					}
+				default:
+					if e := l.Back(); e != nil {
+						l.Remove(e)
+					}
+				}
+			}
+			if want := "ok | " + d.dumpAll(); out[i] != want {
+				return &core.Failure{Key: "dlist-" + t[0], Desc: fmt.Sprintf("op %d %q: implementation answered %q, container/list gives %q", i, c.Lines[i], clip(out[i]), clip(want))}
+			}
+			continue
+		}
+		if t[0] == "allbody" || t[0] == "walkbody" {
+			if len(t) < 2 || listIdx(t[1]) < 0 {
+				return nil
+			}
+			acts, brk, ok := parseScript(t[2:])
+			if !ok {
+				return nil
+			}
+			for _, as := range acts { // handles must exist when the loop starts (as the drivers parse)
+				for _, a := range as {
+					sig, ok := dArity[firstOr(a)]
+					if !ok || len(a) != 1+len(sig) {
+						return nil
+					}
+					for j, kd := range sig {
+						if kd == 'h' {
+							if x, err := strconv.Atoi(a[1+j]); err != nil || x < 2 || x >= len(d.h) {
+								return nil
+							}
+						}
+					}
+				}
+			}
+			// the idiomatic container/list loop: Next is evaluated AFTER the body
+			var ys []string
+			n := 0
+			for e := d.l[listIdx(t[1])].Front(); e != nil; e = e.Next() {
+				if n == bigCap {
+					ys = append(ys, "!")
+					break
+				}
+				if t[0] == "allbody" {
+					ys = append(ys, strconv.Itoa(e.Value.(int)))
+				} else {
+					ys = append(ys, d.show(e))
+				}
+				for _, a := range acts[n] {
+					if _, ok := exec(a); !ok {
+						return nil
+					}
+				}
+				if brk[n] {
+					break
+				}
+				n++
+			}
+			want := "y[" + strings.Join(ys, " ") + "] | " + d.dumpAll()
+			if out[i] != want {
+				return &core.Failure{Key: "dlist-" + t[0], Desc: fmt.Sprintf("op %d %q: implementation answered %q, the container/list loop `for e := l.Front(); e != nil; e = e.Next()` gives %q", i, c.Lines[i], clip(out[i]), clip(want))}
+			}
+			continue
+		}
+		res, ok := exec(t)
+		if !ok {
+			return nil
+		}
 		want := res + " | " + d.dumpAll()
 		if out[i] != want {
 			return &core.Failure{Key: "dlist-" + t[0], Desc: fmt.Sprintf("op %d %q: implementation answered %q, container/list gives %q", i, c.Lines[i], clip(out[i]), clip(want))}
 		}
 	}
 	return nil
+}
+
+// parseScript: tokens `k:op:args…` and `k:break` of a loop-body script.
+func parseScript(toks []string) (map[int][][]string, map[int]bool, bool) {
+	acts, brk := map[int][][]string{}, map[int]bool{}
+	for _, tok := range toks {
+		f := strings.Split(tok, ":")
+		if len(f) < 2 {
+			return nil, nil, false
+		}
+		k, err := strconv.Atoi(f[0])
+		if err != nil || k < 0 || strings.HasPrefix(f[0], "+") || strings.HasPrefix(f[0], "-") {
+			return nil, nil, false
+		}
+		if len(f) == 2 && f[1] == "break" {
+			brk[k] = true
+			continue
+		}
+		acts[k] = append(acts[k], f[1:])
+	}
+	return acts, brk, true
 }
 
 func clip(s string) string {
@@ -776,7 +950,7 @@ func genD(r *core.Rand, tier string) core.Case {
 		}
 		L := names[k]
 		v := r.Range(0, 9)
-		switch r.Pick(10, 12, 7, 7, 3, 3, 3, 3, 3, 7, 7, 8, 8, 12, 3, 3, 1, 1, 2, 2, 1) {
+		switch r.Pick(10, 12, 7, 7, 3, 3, 3, 3, 3, 7, 7, 8, 8, 12, 3, 3, 1, 1, 2, 2, 1, 5) {
 		case 0:
 			lines = append(lines, fmt.Sprintf("pf %s %d", L, v))
 			g.l[k] = insAt(g.l[k], 0, g.next)
@@ -929,6 +1103,8 @@ func genD(r *core.Rand, tier string) core.Case {
 			if len(g.l[k]) == 0 {
 				lines = append(lines, "init "+L)
 			}
+		case 21: // range over the list while the body mutates it through handles
+			lines = append(lines, dLoopLine(r, g, k))
 		}
 	}
 	return core.Case{Lines: lines, Tag: "dlist"}
